@@ -136,7 +136,8 @@ _near = st.builds(
          "localhost\\.evil.example", "evil.example\\localhost", "foo.localhost", "0x7f.1",
          # look-alikes: suffix / prefix / substring matches of the trusted names
          "evillocalhost", "evil-localhost", "localhost.evil.example", "cupola.query-farm.services.evil.example",
-         "cupola.query-farm.services-evil.example", "evilcupola.query-farm.services", "127.0.0.1.evil.example", "evil127.0.0.1x"]
+         "cupola.query-farm.services-evil.example", "evilcupola.query-farm.services", "127.0.0.1.evil.example", "evil127.0.0.1x",
+         "127.evil.example", "127.0.0.1.evil.example", "127.0.0.1evil.example", "localhost.localdomain.evil.example", "127.0.0.1.nip.example"]
     ),
     st.sampled_from(["", "", "", ":80", ":443", ":3000", ":8443", ":65535", ":65536", ":99999", ":", ":080"]),
     _tail,
@@ -192,8 +193,21 @@ _long = st.builds(
     st.sampled_from(["evil.example", "evil.example", "evil.example:443", "evil.example/", "svc.example"]),
 )
 
+# otherwise clean URLs whose host merely LOOKS like a trusted one (prefix / suffix / label / numeric look-alikes)
+_lookalike = st.builds(
+    lambda scheme, host, port, tail: f"{scheme}://{host}{port}{tail}",
+    st.sampled_from(["http", "http", "https"]),
+    st.sampled_from(["127.0.0.1.evil.example", "127.evil.example", "127.0.0.1evil.example", "127.0.0.1.nip.example", "localhost.evil.example",
+                     "localhostevil.example", "evil-localhost", "cupola.query-farm.services.evil.example", "evilcupola.query-farm.services",
+                     "cupola.query-farm.services-evil.example", "127.0.0.256", "127.1.evil.example", "0x7f.evil.example", "[::1].evil.example",
+                     "localhost.localdomain.evil.example", "1270.0.0.1", "127.0.0.1.", "LOCALHOST.evil.example"]),
+    st.sampled_from(["", "", ":80", ":8080", ":443"]),
+    st.sampled_from(["", "/", "/cb", "/cb?x=1"]),
+)
+
 return_tos = st.one_of(
     st.none(),
+    _lookalike,
     _long,
     _accepted,
     _accepted,
